@@ -9,9 +9,14 @@ the set of processes past Lock() are compared with the extracted model.  Besides
 SIGKILL a schedule can cancel the context of a process that waits for its timer (token a<p>, the
 model's Cancel p, enabled at Waiting only): Lock must then return (GAVEUP) without another call.
 
-State letters of a real process: I C R P X (blocked before os.OpenFile / file.Write / os.ReadFile /
-processRunning / os.Remove), W waiting for the timer, G gave up (Lock returned after a cancel),
-H past Lock(), D unlocked, Z killed, E error exit, ? unknown call.
+Only calls on the lock path are gated (harness/rewrite): the private temporary file that createLockFile
+writes the PID into before it hard-links it to the lock path is not a model event (Lock.v header).
+
+State letters of a real process: I R P X (blocked before os.Link / os.ReadFile / processRunning /
+os.Remove of the lock path), W waiting for the timer, G gave up (Lock returned after a cancel),
+H past Lock(), D unlocked, Z killed, E error exit, ? unknown call.  C = blocked before file.Write on the
+lock file: code from before the repair of C10-F1 (create, then write the PID with a second call), or a
+change that brings that back; Lock.v has no such pc, so every such run leaves the model at its first create.
 
 Oracles on the implementation (model-free):
   mutex     at every step at most one process is between Lock() returning nil and Unlock()
@@ -22,9 +27,14 @@ Oracles on the implementation (model-free):
   unlock    while the run agrees with the model and the model says the lock file is there, the
             holder's Unlock() succeeds
 A mutex failure is a KNOWN finding only if (a) the real run agreed with the model on every step
-up to the failure and (b) the first of the two boolean guards of Lock.v that fired on that prefix
-(read_before_write / remove_of_unexamined_inode, evaluated by the model driver) has its class
-listed in known_findings.txt.  Anything else is a VIOLATION with the schedule as replay."""
+up to the failure and (b) the boolean guard of Lock.v (remove_of_unexamined_inode, evaluated by the
+model driver) fired on that prefix and its class is listed in known_findings.txt.  Anything else is a
+VIOLATION with the schedule as replay.
+
+Regression schedules (corpus entries with "verbatim": true) are executed token by token on the real
+processes even after the run has left the model (no skipping, no probing): W1-regression is the
+schedule of the repaired finding C10-F1; on code that creates the lock file empty and writes the PID
+afterwards it ends with two processes past Lock() -- a model-free mutex violation."""
 import atexit, hashlib, json, os, re, select, shutil, signal, subprocess, threading, time
 from concurrent.futures import ThreadPoolExecutor
 import vlib
@@ -36,11 +46,14 @@ TRUSTED = ("harness/rewrite inserts hook calls into a copy of workspace_locker.g
 LOCKER_REL = "internal/locking/workspace_locker.go"
 HOOK_IMPORT = "grog/internal/zz_verif_hook"
 RECV_TIMEOUT = 15.0
-GUARD_CLASS = {"b": "read-before-write", "u": "remove-of-unexamined-inode"}
-CALLEE_PC = {"os.OpenFile": "I", "file.Write": "C", "os.ReadFile": "R", "processRunning": "P", "os.Remove": "X"}
+GUARD_CLASS = {"u": "remove-of-unexamined-inode"}
+# os.Link is the exclusive create of the repaired locker; os.OpenFile / os.Rename / file.Write only occur in older or changed code
+CALLEE_PC = {"os.Link": "I", "os.OpenFile": "I", "os.Rename": "I", "file.Write": "C", "os.ReadFile": "R", "processRunning": "P",
+             "os.Remove": "X"}
 
-W1 = {"n": 2, "dead": [], "lock": "absent", "tokens": "s0,s1,s1,s1,s1,s1,s0".split(","), "name": "W1"}
-W2 = {"n": 3, "dead": [2], "lock": "pid2", "tokens": "s0,s1,s0,s1,s0,s1,s0,s0,s0,s1,s1,s1".split(","), "name": "W2"}
+# Lock.w1_sched (the analogue of the former witness W1: ends with 0 holding and 1 waiting) and Lock.w2_sched (finding C10-F2)
+W1 = {"n": 2, "dead": [], "lock": "absent", "tokens": "s0,s1,s1,s1".split(","), "name": "W1"}
+W2 = {"n": 3, "dead": [2], "lock": "pid2", "tokens": "s0,s1,s0,s1,s0,s1,s0,s0,s1,s1".split(","), "name": "W2"}
 
 _live = set()
 _live_lock = threading.Lock()
@@ -244,7 +257,7 @@ def explore(drv, n, dead, lock, depth, maxcrash, maxcancel=0):
     res = []
     for l in out[:-1]:
         f = l.split("\t")
-        res.append({"events": f[1].split(","), "viol": f[2] == "1", "rbw": f[3] == "1", "rui": f[4] == "1", "kind": f[5]})
+        res.append({"events": f[1].split(","), "viol": f[2] == "1", "rui": f[3] == "1", "kind": f[4]})
     e = out[-1].split("\t")
     return res, int(e[2]), int(e[3])
 
@@ -405,14 +418,15 @@ def replay_schedule(binary, sc, obs, errf, solo=None):
                     return
 
         base_len = sc.get("base_len", len(sc["tokens"]))
-        probed = False
+        verbatim = bool(sc.get("verbatim"))    # regression schedule: every token is executed, whatever the model says
+        probed = verbatim
         compare(0, obs[0])
         for k, tok in enumerate(sc["tokens"], 1):
             m = obs[k] if k < len(obs) else None
             p = int(tok[1:])
             if p not in cs:
                 continue
-            if res["mismatch"] is not None and k <= base_len:
+            if res["mismatch"] is not None and k <= base_len and not verbatim:
                 continue    # diverged: skip the rest of the explored part, keep the release/solo part
             if res["mismatch"] is not None and p == solo and cs[p].state == "H":
                 continue    # diverged run: the contender already holds, do not let the leftover tokens unlock it
@@ -513,7 +527,7 @@ def sched_key(sc):
 
 
 def gen_schedules(drv, tier, rng, stats):
-    depth2 = 16    # the 2-contender graphs close at depth 14: this is the whole reachable graph
+    depth2 = 16    # the 2-contender graphs close at depth 12: this is the whole reachable graph
     configs = []   # (n, dead, model lock, real lock variants, maxcrash)
     # crash budget 2 contains the smaller ones as subgraphs; 0 and 1 only add alternative paths to the same transitions.
     # The budget-2 graphs also contain every Cancel of a waiting contender (two contenders: at most two cancels).
@@ -554,7 +568,7 @@ def gen_schedules(drv, tier, rng, stats):
     if tier != "quick":
         # three live contenders, at most one crash: the whole reachable graph again
         for ml, variants, dead, n in (("absent", ["absent"], [], 3), ("pid3", ["pid3"], [3], 4), ("blank", ["empty", "garbage"], [], 3)):
-            scheds, st, tr = explore(drv, n, dead, ml, 24, 1, 1)    # closes at depth 20: whole graph (<= 1 crash, <= 1 cancel)
+            scheds, st, tr = explore(drv, n, dead, ml, 24, 1, 1)    # closes at depth 15: whole graph (<= 1 crash, <= 1 cancel)
             stats["explorer_states"] += st
             stats["explorer_transitions"] += tr
             for i, s in enumerate(scheds):
@@ -571,7 +585,7 @@ def gen_schedules(drv, tier, rng, stats):
         # kinds 4, 5: process 0 acquires first and mostly keeps the lock while the others contend, wait and are cancelled
         held_first = kind >= 4
         if held_first:
-            toks += ["s0", "s0"]
+            toks += ["s0"]      # one call: os.Link of the already written temporary file
         for _ in range(10 + rng.below(14)):
             p = rng.choice(live)
             if held_first and p == 0 and not rng.chance(1, 5):
@@ -613,7 +627,8 @@ def classify(sc, ob, r):
 
 
 def replay_record(sc, ob, r):
-    return {"schedule": {"n": sc["n"], "dead": sc["dead"], "lock": sc["lock"], "tokens": sc["tokens"], "solo": sc.get("solo")},
+    return {"schedule": {"n": sc["n"], "dead": sc["dead"], "lock": sc["lock"], "tokens": sc["tokens"], "solo": sc.get("solo"),
+                         "verbatim": bool(sc.get("verbatim")), "base_len": sc.get("base_len", len(sc["tokens"]))},
             "model_events": [o["ev"] for o in ob[1:]], "origin": sc.get("origin"),
             "result": {k: r.get(k) for k in ("mismatch", "mutex_fail", "liveness_fail", "cancel_fail", "unlock_fail", "protocol_error")},
             "trace": r["trace"][-6:], "replay_cmd": "./check C10 --replay <this file>",
@@ -675,7 +690,7 @@ def run_all(out, binary, drv, todo, errf, workers):
     counters = {"mutex_failures": 0, "liveness_failures": 0, "mismatches": [], "steps": 0, "agreed_steps": 0,
                 "full_agreement": 0, "solo_checked": 0, "unlock_errors": 0, "cancel_failures": 0, "unlock_failures": 0,
                 "cancel_schedules": 0, "cancels_executed": 0,
-                "known:read-before-write": 0, "known:remove-of-unexamined-inode": 0}
+                "known:remove-of-unexamined-inode": 0}
 
     def one(item):
         sc, ob = item
@@ -820,11 +835,12 @@ def run(out, tier):
     chosen = gen_schedules(drv, tier, rng, stats)
     todo = add_liveness_suffix(drv, chosen)
     out.assumptions += [
-        "os.ReadFile, os.Remove, file.Write, O_EXCL create and kill(pid,0) are each atomic with respect to one another (one model event per call)",
+        "os.ReadFile, os.Remove, os.Link (exclusive create of the lock path with its content) and kill(pid,0) are each atomic with respect to one another (one model event per call)",
+        "the temporary file of createLockFile is private to its process (os.CreateTemp name): nobody else reads, links or removes it",
         "PIDs are not reused while a lock file naming them exists (the model never reuses a pid)",
         "processes are one-shot: a build locks once and unlocks at most once",
-        "file.Write of the PID does not fail and the lock directory exists (lines 44-47 and the ErrNotExist arm of line 41 are outside the model)",
-        "the context is consulted only in the select of the wait loop (lines 79-83): a cancellation is the event Cancel at Waiting, "
+        "writing the temporary file does not fail and the lock directory exists (the error returns of createLockFile before os.Link are outside the model)",
+        "the context is consulted only in the select of the wait loop: a cancellation is the event Cancel at Waiting, "
         "one that arrives anywhere else is observed at the next Waiting (a SIGKILL anywhere is Crash)",
     ]
     try:
@@ -862,9 +878,9 @@ def run(out, tier):
         "evaluations": len(todo),
         "distinct_nontrivial": len(nontrivial),
         "rule": "schedules = sequences of (process takes its next file-system call | process is SIGKILLed | the context of a process waiting for "
-                "its timer is cancelled); fixed schedules first (the two witnesses, the corpus incl. holder + cancelled waiter + third contender); "
+                "its timer is cancelled); fixed schedules first (W1 repaired, witness W2, the corpus incl. the verbatim W1 regression schedule and holder + cancelled waiter + third contender); "
                 "2 contenders: every transition of the "
-                "model's whole reachable graph (it closes at depth 14; states up to inode renaming) with lock file initially absent / empty / garbage / PID of a "
+                "model's whole reachable graph (it closes at depth 12; states up to inode renaming) with lock file initially absent / empty / garbage / PID of a "
                 "reaped process, at most two crashes and any cancels (%s); then all but one looping contender unlock or die and that contender runs alone until "
                 "HELD; %s; plus random 3- and 4-contender schedules with up to two crashes and cancels of waiting processes; non-trivial = at least two "
                 "processes act and a create hits an existing file or a process is killed or cancelled; distinct = distinct (configuration, schedule)" % (
@@ -875,8 +891,7 @@ def run(out, tier):
         "steps_replayed": counters["steps"], "steps_compared_equal": counters["agreed_steps"],
         "correspondence_mismatches": counters["mismatches"],
         "mutex_failures_on_real_processes": counters["mutex_failures"],
-        "mutex_failures_classified": {"read-before-write": counters["known:read-before-write"],
-                                      "remove-of-unexamined-inode": counters["known:remove-of-unexamined-inode"]},
+        "mutex_failures_classified": {"remove-of-unexamined-inode": counters["known:remove-of-unexamined-inode"]},
         "liveness_checked_schedules": counters["solo_checked"], "liveness_failures": counters["liveness_failures"],
         "unlock_errors_observed": counters["unlock_errors"], "unlock_failures": counters["unlock_failures"],
         "schedules_with_cancel": counters["cancel_schedules"], "cancels_executed": counters["cancels_executed"],
@@ -906,7 +921,7 @@ def replay(out, path):
     print("unlock_fail:", r["unlock_fail"])
     findings = {f["class"]: f for f in vlib.known_findings("C10")}
     counters = {"mutex_failures": 0, "liveness_failures": 0, "mismatches": [], "cancel_failures": 0, "unlock_failures": 0,
-                "known:read-before-write": 0, "known:remove-of-unexamined-inode": 0}
+                "known:remove-of-unexamined-inode": 0}
     judge(out, findings, sc, ob, r, counters)
     if counters["mismatches"] and not out.violations:
         out.violation("replay: the real processes and Lock.v still differ: %s" % "; ".join(r["mismatch"]["diffs"]),
